@@ -30,7 +30,9 @@ Proof. intro H. rewrite (has_lor_l _ rf _ H). reflexivity. Qed.
 Lemma k_open_ok root path rf fl : rfd root -> okd Qfd (k_open fz cfg root path rf fl).
 Proof.
   intro Hr. unfold k_open, os. destruct cfg; cbn [negb]; [|constructor; exact I].
-  apply okp_map_err, w_openat2_ok; [exact Hr|apply root_mask_magic; reflexivity|apply root_mask_inroot; reflexivity].
+  destruct (N.eqb OPENAT2_OPEN_RETRIES 0).
+  - apply okp_map_err, w_openat2_ok; [exact Hr|apply root_mask_magic; reflexivity|apply root_mask_inroot; reflexivity].
+  - unfold k_open_loop. apply openat2_retry_ok; [exact Hr|apply root_mask_magic; reflexivity|apply root_mask_inroot; reflexivity].
 Qed.
 
 Lemma k_resolve_loop_ok n root path fl rf :
@@ -57,7 +59,7 @@ Proof.
   eapply okp_bind; [apply k_resolve_ok; exact Hr|]. intros r Hfd.
   destruct r as [fd|e0]; [constructor; exact Hfd|].
   generalize (partial_ancestors path) e0. intro anc.
-  induction anc as [|[p rem] rest IH]; intro last; [constructor|].
+  induction anc as [|[p rem] rest IH]; intro last; [destruct PARTIAL_UNREACHABLE_PANICS eqn:Efl; constructor; try exact I; right; right; right; split; [exact Efl|reflexivity]|].
   destruct (is_safety_violation last); [constructor; exact I|].
   eapply okp_bind; [apply k_resolve_ok; exact Hr|]. intros r2 Hfd2.
   destruct r2 as [fd|e]; [constructor; exact Hfd2|apply IH].
@@ -75,7 +77,7 @@ Proof.
     [apply k_resolve_partial_ok|apply opath_resolve_partial_ok]; assumption.
 Qed.
 
-Lemma h_reopen_ok fd fl : rfd fd -> okp Pd Qfd (h_reopen fz cfg pfuel gh fd fl).
+Lemma h_reopen_ok fd fl : rfd fd -> okf Qfd (h_reopen fz cfg pfuel gh fd fl).
 Proof. intro H. unfold h_reopen. apply reopen_ok; assumption. Qed.
 
 Ltac weak := eapply okp_weaken_P; [apply Pdn_Pd|].
@@ -85,7 +87,7 @@ Lemma close_ret_ok {A E} (Qa : A -> Prop) fd (r : result A E) :
 Proof. intros Hfd Hr. eapply okp_bind; [apply close_ok; exact Hfd|]. intros _ _. constructor; exact Hr. Qed.
 
 (* Resolver::open: disciplined; only the reopen through procfs may follow *)
-Theorem r_open_ok rs root path fl : rfd root -> okp Pd Qfd (r_open rs root path fl).
+Theorem r_open_ok rs root path fl : rfd root -> okf Qfd (r_open rs root path fl).
 Proof.
   intro Hr. unfold RootM.r_open. destruct (intersects fl RESOLVER_OPEN_REFUSED); [constructor; exact I|].
   destruct (rs_kernel rs) eqn:Ek; [weak; apply k_open_ok; exact Hr|].
@@ -116,7 +118,7 @@ Proof.
       * apply close_ret_ok; [exact Hd|exact I].
     + intro; exact I.
   - cbn. constructor. exact I.
-  - cbn. constructor.
+  - exfalso. exact (path_split_total _ Hsp).
 Qed.
 
 Theorem root_readlink_ok rs root path : rfd root -> okd (okR QT) (root_readlink fz cfg pfuel gh sysctl_ps rs root path).
@@ -195,7 +197,8 @@ Proof.
   - constructor; [unfold rfd in *; pdn_solve|]. intro r. destruct (as_dents r) as [[|n l]|e].
     + apply close_ret_ok; [exact Hd|exact I].
     + apply IH; assumption.
-    + destruct (N.eqb e ENOENT); apply close_ret_ok; try exact Hd; exact I.
+    + destruct (N.eqb e EINTR); [apply IH; assumption|].
+      destruct (N.eqb e ENOENT); apply close_ret_ok; try exact Hd; exact I.
   - destruct (dot_or_dotdot n); [apply IH; assumption|].
     eapply okp_bind; [apply Hrec|]. intros r _.
     destruct (ignore_enoent r); [apply IH; assumption|apply close_ret_ok; [exact Hd|exact I]].
@@ -292,7 +295,7 @@ Proof.
 Qed.
 
 Theorem root_mkdir_all_ok rs root path mode :
-  rfd root -> okp Pd Qfd (root_mkdir_all fz cfg pfuel gh sysctl_ps rs root path mode).
+  rfd root -> okf Qfd (root_mkdir_all fz cfg pfuel gh sysctl_ps rs root path mode).
 Proof.
   intro Hr. unfold root_mkdir_all.
   destruct (negb _); [constructor; exact I|].
